@@ -198,6 +198,12 @@ class SyncIter(Iterable):
         if self._stopped is None:
             return
         self._stopped.set()
+        while self._worker_thread.is_alive():
+            # The worker may be blocked on `put` because the queue is full.
+            try:
+                self._q.get(timeout=0.01)
+            except queue.Empty:
+                pass
         self._worker_thread.join()
         self._stopped = None
 
@@ -453,11 +459,15 @@ class AsyncBuffer(AsyncIterable):
             return
         self._stopped.set()
         tasks = self._tasks
-        while not tasks.empty():
-            _ = tasks.get()
-        # `tasks` is now empty. The thread needs to put at most one
-        # more element into the queue, which is safe.
-        self._worker.join()
+        while True:
+            while not tasks.empty():
+                _ = tasks.get()
+            # The thread may still put up to three more elements into the queue
+            # (a data element, then the end or error markers), possibly more than
+            # the queue can hold; keep draining until the thread has exited.
+            self._worker.join(timeout=0.01)
+            if not self._worker.is_alive():
+                break
         self._stopped = None
 
     async def __aiter__(self):
